@@ -224,6 +224,15 @@ func e2Programs(thorough bool) []*c04Prog {
 				src := "import (\n\t\"github.com/mazrean/kessoku\"\n)\n\n" + body.String() + inject
 				out = append(out, &c04Prog{Family: "E2", Name: "name " + n + " (" + shape + ") " + mode, Files: map[string]string{"k.go": src}, Invoke: [][]string{{"k.go"}},
 					Pre: "name=" + n + ",shape=" + shape + ",mode=" + mode})
+				if shape == "type-and-base" {
+					// an EARLIER injector of the same file has already been given the base name: in this one the base
+					// type's variable gets the suffixed name, which is exactly the other type's own base name
+					base := strings.TrimSuffix(strings.TrimSuffix(n, "0"), "Ch")
+					early := fmt.Sprintf("type Early struct{ A int }\n\nfunc NewEarly(b *%s) *Early { return &Early{} }\n\nvar _ = kessoku.Inject[*Early](\n\t\"InitEarly\",\n\t%s,\n\tkessoku.Provide(NewEarly),\n)\n\n", base, wrap(mode, "New"+n+"Base"))
+					src2 := strings.Replace(src, "var _ = kessoku.Inject[*R](", early+"var _ = kessoku.Inject[*R](", 1)
+					out = append(out, &c04Prog{Family: "E2", Name: "name " + n + " (type-and-base, after an earlier injector that uses the base type) " + mode, Files: map[string]string{"k.go": src2}, Invoke: [][]string{{"k.go"}},
+						Pre: "name=" + n + ",shape=type-and-base-after-base,mode=" + mode})
+				}
 				if shape == "pkg-ident" {
 					// the same file in a SECOND PACKAGE of the same package name (another directory), generated in one
 					// invocation after a file of the first: each package's own identifiers must still be respected
